@@ -266,7 +266,7 @@ def run(pid, tier, seed):
                     chk.evaluations += 1
                     case = {"module": name, "function": fm["qual"], "strategy": sname, "history": "yield+return, yield+None return"}
                     try:
-                        defn = get_updated_definition(func, hist, 0, None, sval)
+                        defn = get_updated_definition(func, (t for t in hist), 0, None, sval)      # a one-shot iterable
                     except Exception as e:
                         chk.fail("error", dict(case, error=repr(e)))
                         continue
